@@ -96,6 +96,21 @@ type Res struct {
 	Panic  interface{}
 	Root   *mast.Root // root produced by persist-like ops
 	Loaded *mast.Mast
+	// environment traffic of the op; for reload ops Calls covers MakeRoot and
+	// AuxCalls the LoadMast that follows
+	Calls    []env.Call
+	AuxCalls []env.Call
+}
+
+// Count returns the number of calls of a kind.
+func Count(cs []env.Call, kind string) int {
+	n := 0
+	for _, c := range cs {
+		if c.Kind == kind {
+			n++
+		}
+	}
+	return n
 }
 
 func (r Res) String() string {
@@ -167,6 +182,8 @@ type World struct {
 
 	Trees   []*mast.Mast
 	Model   []map[int]int // reference map per slot (nil when slot unused)
+	Mod     []map[int]bool // keys touched by successful mutations since Base
+	HChg    []bool         // the height changed at some point since Base
 	Base    []Base
 	Roots   []*mast.Root
 	Cursors []*mast.Cursor
@@ -181,7 +198,7 @@ const MaxRoots = 2
 // New builds a fresh world with tree 0 freshly created.
 func New(cfg *Config) (*World, error) {
 	w := &World{Cfg: cfg,
-		Trees: make([]*mast.Mast, MaxTrees), Model: make([]map[int]int, MaxTrees), Base: make([]Base, MaxTrees),
+		Trees: make([]*mast.Mast, MaxTrees), Model: make([]map[int]int, MaxTrees), Mod: make([]map[int]bool, MaxTrees), HChg: make([]bool, MaxTrees), Base: make([]Base, MaxTrees),
 		Roots: make([]*mast.Root, MaxRoots), Cursors: make([]*mast.Cursor, 1),
 		Cmp: &env.Counter{}, Msh: &env.Counter{}}
 	if cfg.InMemory {
@@ -247,6 +264,9 @@ func (w *World) RemoteConfig(st *env.Store, withCache bool) *mast.RemoteConfig {
 			}
 			return json.Marshal(v)
 		}
+	}
+	if cfg.RegisteredTypes {
+		rc.UnmarshalerUsesRegisteredTypes = true
 	}
 	if cfg.CustomCompare {
 		base := mast.DefaultKeyCompare(json.Marshal)
@@ -365,20 +385,54 @@ func (w *World) Enabled(op Op) bool {
 // Apply executes one op against the real implementation and maintains the
 // reference map. It never judges; monitors do.
 func (w *World) Apply(op Op) Res {
+	if w.Store != nil {
+		w.Store.ResetLog()
+	}
+	r := w.apply(op)
+	if w.Store != nil && r.Calls == nil {
+		r.Calls = w.Store.Calls("")
+	}
+	return r
+}
+
+func (w *World) touch(slot, k int) {
+	if w.Mod[slot] == nil {
+		w.Mod[slot] = map[int]bool{}
+	}
+	w.Mod[slot][k] = true
+}
+
+func (w *World) apply(op Op) Res {
 	cfg := w.Cfg
 	switch op.Kind {
 	case OpIns:
 		m := w.Trees[op.A]
+		h0 := m.Height()
+		defer func() {
+			if m.Height() != h0 {
+				w.HChg[op.A] = true
+			}
+		}()
 		r := guard(func() error { return m.Insert(ctx, cfg.Key(op.K), cfg.Vals[op.V]) })
 		if r.Err == nil && r.Panic == nil {
+			if old, ok := w.Model[op.A][op.K]; !ok || old != op.V {
+				w.touch(op.A, op.K)
+			}
 			w.Model[op.A][op.K] = op.V
 		}
 		return r
 	case OpDel:
 		m := w.Trees[op.A]
+		h0 := m.Height()
+		defer func() {
+			if m.Height() != h0 {
+				w.HChg[op.A] = true
+			}
+		}()
 		r := guard(func() error { return m.Delete(ctx, cfg.Key(op.K), cfg.Vals[op.V]) })
 		if r.Err == nil && r.Panic == nil {
 			delete(w.Model[op.A], op.K)
+			w.touch(op.A, op.K)
 		}
 		return r
 	case OpGet:
@@ -395,6 +449,10 @@ func (w *World) Apply(op Op) Res {
 			return r
 		}
 		r.Root = root
+		r.Calls = w.Store.Calls("")
+		w.Store.ResetLog()
+		w.Mod[op.A] = nil
+		w.HChg[op.A] = false
 		b := Base{Root: *root, Valid: true}
 		if root.Link != nil {
 			b.Link = *root.Link
@@ -426,6 +484,8 @@ func (w *World) Apply(op Op) Res {
 			var m2 *mast.Mast
 			r2 := guard(func() (err error) { m2, err = lr.LoadMast(ctx, w.RemoteConfig(w.Store, true)); return })
 			r2.Root = root
+			r2.Calls = r.Calls
+			r2.AuxCalls = w.Store.Calls("")
 			if r2.Err != nil || r2.Panic != nil {
 				return r2
 			}
@@ -447,7 +507,10 @@ func (w *World) Apply(op Op) Res {
 			return r
 		}
 		r.Loaded = m2
+		r.Calls = w.Store.Calls("")
 		w.Trees[op.A] = m2
+		w.Mod[op.A] = nil
+		w.HChg[op.A] = false
 		c := w.ReadContents(m2)
 		w.Model[op.A] = copyModel(c.M)
 		b := Base{Root: *root, Valid: true, Contents: c}
@@ -463,9 +526,15 @@ func (w *World) Apply(op Op) Res {
 		if r.Err != nil || r.Panic != nil {
 			return r
 		}
+		r.Calls = w.Store.Calls("")
 		w.Trees[op.B] = &m2
 		w.Model[op.B] = copyModel(w.Model[op.A])
 		w.Base[op.B] = w.Base[op.A]
+		w.Mod[op.B] = nil
+		w.HChg[op.B] = w.HChg[op.A]
+		for k := range w.Mod[op.A] {
+			w.touch(op.B, k)
+		}
 		return r
 	case OpCursor:
 		m := w.Trees[op.A]
@@ -479,6 +548,8 @@ func (w *World) Apply(op Op) Res {
 	case OpDrop:
 		w.Trees[op.A] = nil
 		w.Model[op.A] = nil
+		w.Mod[op.A] = nil
+		w.HChg[op.A] = false
 		w.Base[op.A] = Base{}
 		return Res{}
 	}
